@@ -1778,3 +1778,220 @@ Proof.
   eexists. exists (mkWorld [] [] [] [] []). eexists. eexists.
   split; [reflexivity|]. split; [vm_compute; reflexivity|]. split; vm_compute; reflexivity.
 Qed.
+
+(* ------------------------------------------------------------------------------------------ *)
+(** * 16. the slot only ever holds one automatic control frame (a Pong or a Close) *)
+
+Definition ctl_frame (a : frame) : Prop :=
+  h_opcode (f_hdr a) = OCtl Pong \/ h_opcode (f_hdr a) = OCtl Close.
+
+Definition slot_ctl (x : ctx) : Prop :=
+  match x_additional x with None => True | Some a => ctl_frame a end.
+
+Lemma ctl_frame_pong d : ctl_frame (frame_pong d).
+Proof. left. reflexivity. Qed.
+Lemma ctl_frame_close c : ctl_frame (frame_close c).
+Proof. right. reflexivity. Qed.
+
+Lemma ctl_frame_content a a' : content_eq a a' -> ctl_frame a -> ctl_frame a'.
+Proof. intros [_ [Ho _]] H. unfold ctl_frame in *. rewrite Ho. exact H. Qed.
+
+Lemma slot_ctl_ext x y : x_additional y = x_additional x -> slot_ctl x -> slot_ctl y.
+Proof. unfold slot_ctl. intros ->. auto. Qed.
+
+Lemma slot_ctl_set_state x s : slot_ctl x -> slot_ctl (set_state x s).
+Proof. exact (fun H => H). Qed.
+Lemma slot_ctl_set_codec x c : slot_ctl x -> slot_ctl (set_codec x c).
+Proof. exact (fun H => H). Qed.
+Lemma slot_ctl_set_incomplete x i : slot_ctl x -> slot_ctl (set_incomplete x i).
+Proof. exact (fun H => H). Qed.
+Lemma slot_ctl_set_unflushed x b : slot_ctl x -> slot_ctl (set_unflushed x b).
+Proof. exact (fun H => H). Qed.
+Lemma slot_ctl_set_raw_none x : slot_ctl (set_additional_raw x None).
+Proof. exact I. Qed.
+Lemma slot_ctl_set_raw_some x a : ctl_frame a -> slot_ctl (set_additional_raw x (Some a)).
+Proof. exact (fun H => H). Qed.
+Lemma slot_ctl_set_additional x a : slot_ctl x -> ctl_frame a -> slot_ctl (set_additional x a).
+Proof.
+  unfold set_additional. intros H Ha. destruct (x_additional x) as [f|] eqn:E.
+  - destruct (opcode_eqb (h_opcode (f_hdr f)) (OCtl Pong)); [exact Ha|exact H].
+  - exact Ha.
+Qed.
+
+Ltac slot_auto :=
+  eauto 12 using slot_ctl_set_state, slot_ctl_set_codec, slot_ctl_set_incomplete, slot_ctl_set_unflushed,
+    slot_ctl_set_raw_none, slot_ctl_set_raw_some, slot_ctl_set_additional, ctl_frame_pong, ctl_frame_close.
+
+Lemma slot_outcome_ctl x evs x' : slot_outcome x evs x' -> slot_ctl x -> slot_ctl x'.
+Proof.
+  unfold slot_outcome, slot_ctl. destruct (x_additional x) as [a|].
+  - intros [[_ [a' [-> Hc]]]|[a' [_ [_ ->]]]] H; [eapply ctl_frame_content; eassumption|exact I].
+  - intros [_ ->] _. exact I.
+Qed.
+
+Lemma write__some_unfold x f w :
+  write_ x (Some f) w =
+  let '(r0, x0, w0) := buffer_frame x f w in
+  match r0 with
+  | ROk _ => write_ x0 None w0
+  | RErr e => (RErr e, x0, w0)
+  | RPanic s => (RPanic s, x0, w0)
+  | ROutOfFuel => (ROutOfFuel, x0, w0)
+  end.
+Proof. unfold write_. destruct (buffer_frame x f w) as [[[u|e|s|] x0] w0]; reflexivity. Qed.
+
+Lemma buffer_frame_slot x f w r x' w' :
+  buffer_frame x f w = (r, x', w') -> x_additional x' = x_additional x.
+Proof.
+  rewrite buffer_frame_unfold. cbv zeta.
+  destruct (codec_buffer_frame (x_codec x) (sent_frame (x_role x) w f) (after_key (x_role x) w))
+    as [[r0 c0] w0].
+  destruct (check_connection_reset r0 (x_state x)) as [r1 s1]. intros H. inv H. reflexivity.
+Qed.
+
+Lemma write__slot_ctl x data w r x' w' : write_ x data w = (r, x', w') -> slot_ctl x -> slot_ctl x'.
+Proof.
+  destruct data as [f|].
+  - rewrite write__some_unfold. destruct (buffer_frame x f w) as [[r0 x0] w0] eqn:EB.
+    apply buffer_frame_slot in EB. intros H Hs.
+    assert (Hs0 : slot_ctl x0) by (eapply slot_ctl_ext; eassumption).
+    destruct r0; try (inv H; exact Hs0).
+    apply write__none_slot in H. destruct H as [evs [_ Ho]]. eapply slot_outcome_ctl; eassumption.
+  - intros H. apply write__none_slot in H. destruct H as [evs [_ Ho]]. eapply slot_outcome_ctl; eassumption.
+Qed.
+
+Lemma flush_slot_ctl x w r x' w' : flush x w = (r, x', w') -> slot_ctl x -> slot_ctl x'.
+Proof. intros H. apply flush_slot in H. destruct H as [evs [_ Ho]]. eapply slot_outcome_ctl; eassumption. Qed.
+
+Lemma close_slot_ctl x code w r x' w' : close x code w = (r, x', w') -> slot_ctl x -> slot_ctl x'.
+Proof.
+  unfold close. intros H Hs.
+  destruct (x_state x); apply flush_slot_ctl in H; auto. exact (ctl_frame_close code).
+Qed.
+
+Lemma write_slot_ctl x m w r x' w' : write x m w = (r, x', w') -> slot_ctl x -> slot_ctl x'.
+Proof.
+  unfold write. intros H Hs.
+  destruct (is_terminated (x_state x)); [inv H; exact Hs|].
+  destruct (negb (is_active (x_state x))); [inv H; exact Hs|].
+  assert (Hdata : forall f, (let '(r, x1, w1) := write_ x (Some f) w in
+                   match r with
+                   | ROk true => flush x1 w1 | ROk false => (ROk tt, x1, w1)
+                   | RErr e => (RErr e, x1, w1) | RPanic s => (RPanic s, x1, w1)
+                   | ROutOfFuel => (ROutOfFuel, x1, w1) end) = (r, x', w') -> slot_ctl x').
+  { intros f Hd. destruct (write_ x (Some f) w) as [[r1 x1] w1] eqn:EW.
+    apply write__slot_ctl in EW; [|exact Hs].
+    destruct r1 as [[|]|e|s|]; try (inv Hd; exact EW). eapply flush_slot_ctl; eassumption. }
+  destruct m; try (eapply Hdata; exact H).
+  - destruct (write_ (set_additional x (frame_pong b)) None w) as [[r1 x1] w1] eqn:EW.
+    apply write__slot_ctl in EW; [|apply slot_ctl_set_additional; [exact Hs|apply ctl_frame_pong]].
+    destruct r1; inv H; exact EW.
+  - eapply close_slot_ctl; eassumption.
+Qed.
+
+Lemma do_close_slot_ctl x cl r x' : do_close x cl = (r, x') -> slot_ctl x -> slot_ctl x'.
+Proof.
+  unfold do_close. intros H Hs. destruct (x_state x); inv H; slot_auto.
+Qed.
+
+Lemma read_message_frame_slot_ctl x w r x' w' :
+  read_message_frame x w = (r, x', w') -> slot_ctl x -> slot_ctl x'.
+Proof.
+  unfold read_message_frame. intros H Hs.
+  destruct (read_frame (cfg_max_frame_size (x_cfg x)) (role_eqb (x_role x) Server)
+              (cfg_accept_unmasked (x_cfg x)) (x_codec x) w) as [[r0 c1] w1] eqn:ER.
+  destruct (check_connection_reset r0 (x_state x)) as [r0' s1] eqn:EC.
+  assert (Hs1 : slot_ctl (set_state (set_codec x c1) s1)) by exact Hs.
+  repeat dm_in H;
+    repeat match goal with
+    | E : do_close _ _ = _ |- _ => apply do_close_slot_ctl in E; [|exact Hs1]
+    end;
+    inv H; slot_auto.
+Qed.
+
+Lemma read_loop_slot_ctl (fuel : nat) : forall x w r x' w',
+  read_loop fuel x w = (r, x', w') -> slot_ctl x -> slot_ctl x'.
+Proof.
+  induction fuel as [|fuel IH]; intros x w r x' w' H Hs.
+  - cbn [read_loop] in H. inv H. exact Hs.
+  - cbn [read_loop] in H.
+    match type of H with
+    | (match ?e with _ => _ end) = _ => destruct e as [[r0 x0] w0] eqn:E0
+    end.
+    assert (Hs0 : slot_ctl x0).
+    { clear H. repeat dm_in E0;
+        repeat match goal with
+        | E : flush _ _ = _ |- _ => apply flush_slot_ctl in E; [|exact Hs]
+        end;
+        inv E0; slot_auto. }
+    destruct r0 as [u|e|s|]; try (inv H; exact Hs0).
+    destruct (read_message_frame x0 w0) as [[r1 x1] w1] eqn:E1.
+    apply read_message_frame_slot_ctl in E1; [|exact Hs0].
+    destruct r1 as [[m|]|e|s|]; try (inv H; exact E1).
+    eapply IH; eassumption.
+Qed.
+
+Lemma read_slot_ctl x w r x' w' : read x w = (r, x', w') -> slot_ctl x -> slot_ctl x'.
+Proof.
+  unfold read. intros H Hs. destruct (is_terminated (x_state x)); [inv H; exact Hs|].
+  eapply read_loop_slot_ctl; eassumption.
+Qed.
+
+Lemma run_op_slot_ctl x o w res x' w' : run_op x o w = (res, x', w') -> slot_ctl x -> slot_ctl x'.
+Proof.
+  intros H Hs. destruct o; cbn [run_op] in H.
+  - destruct (read x w) as [[r x1] w1] eqn:E. inv H. eapply read_slot_ctl; eassumption.
+  - destruct (write x m w) as [[r x1] w1] eqn:E. inv H. eapply write_slot_ctl; eassumption.
+  - destruct (flush x w) as [[r x1] w1] eqn:E. inv H. eapply flush_slot_ctl; eassumption.
+  - destruct (close x c w) as [[r x1] w1] eqn:E. inv H. eapply close_slot_ctl; eassumption.
+  - inv H. exact Hs.
+  - inv H. exact Hs.
+  - destruct (config_valid _); inv H; exact Hs.
+Qed.
+
+Lemma run_ops_slot_ctl ops : forall x w rs x' w',
+  run_ops x ops w = (rs, x', w') -> slot_ctl x -> slot_ctl x'.
+Proof.
+  induction ops as [|o ops IH]; intros x w rs x' w' H Ht; cbn [run_ops] in H.
+  - inv H. exact Ht.
+  - destruct (run_op x o w) as [[r1 x1] w1] eqn:E1.
+    destruct (run_ops x1 ops w1) as [[rs2 x2] w2] eqn:E2. inv H.
+    eapply IH; [exact E2|]. eapply run_op_slot_ctl; eassumption.
+Qed.
+
+(* in every reachable state the slot is empty or holds exactly one Pong or Close frame *)
+Lemma c14_slot_ctl r part cfg x0 ops w0 rs x w :
+  ctx_new r part cfg = Some x0 -> run_ops x0 ops w0 = (rs, x, w) ->
+  match x_additional x with
+  | None => True
+  | Some a => h_opcode (f_hdr a) = OCtl Pong \/ h_opcode (f_hdr a) = OCtl Close
+  end.
+Proof.
+  intros Hn Hr. apply ctx_new_spec in Hn. destruct Hn as [_ [_ [_ [_ [_ [Ha _]]]]]].
+  apply (run_ops_slot_ctl _ _ _ _ _ _ Hr). unfold slot_ctl. rewrite Ha. exact I.
+Qed.
+
+(* expanded forms for the property files *)
+Lemma c10_accept_pong_std x d w r x' w' :
+  x_state x = Active ->
+  (x_additional x = None \/ exists a, x_additional x = Some a /\ h_opcode (f_hdr a) = OCtl Pong) ->
+  write x (MPong d) w = (r, x', w') ->
+  exists evs, w_log w' = w_log w ++ evs /\
+    ((queued evs = [] /\ exists a', x_additional x' = Some a' /\ content_eq (frame_pong d) a') \/
+     (exists a', queued evs = [a'] /\ content_eq (frame_pong d) a' /\ x_additional x' = None)).
+Proof.
+  intros Hs Hslot H. apply (c10_accept_pong _ _ _ _ _ _ Hs) in H. destruct H as [evs [El Ho]].
+  exists evs. split; [exact El|]. unfold slot_outcome in Ho.
+  rewrite (set_additional_pong_slot _ d Hslot) in Ho. exact Ho.
+Qed.
+
+Lemma c10_flush_slot x w r x' w' :
+  flush x w = (r, x', w') ->
+  exists evs, w_log w' = w_log w ++ evs /\
+    match x_additional x with
+    | None => queued evs = [] /\ x_additional x' = None
+    | Some a =>
+        (queued evs = [] /\ exists a', x_additional x' = Some a' /\ content_eq a a') \/
+        (exists a', queued evs = [a'] /\ content_eq a a' /\ x_additional x' = None)
+    end.
+Proof. exact (flush_slot x w r x' w'). Qed.
